@@ -5,6 +5,7 @@ import (
 	"fmt"
 
 	carv2 "github.com/ipld/go-car/v2"
+	"github.com/ipld/go-car/v2/index"
 	"github.com/multiformats/go-varint"
 )
 
@@ -57,7 +58,10 @@ func genC14Archive(c *Ctx, r *RNG, small bool) c14Archive {
 			pad = r.Bytes(padLen) // the reader must not care what the padding holds
 		}
 		var trailer []byte
-		switch r.Intn(4) {
+		switch r.Intn(5) {
+		case 4: // a real index of this payload, after some index padding
+			trailer = append(make([]byte, pick(r, []int{0, 1, 512})), c14RealIndex(payload)...)
+			c.Count("archive:v2-real-index")
 		case 0: // index-less
 		case 1:
 			trailer = r.Bytes(1 + r.Intn(40))
@@ -85,6 +89,19 @@ func genC14Archive(c *Ctx, r *RNG, small bool) c14Archive {
 	}
 	c.Count(fmt.Sprintf("archive:blocks=%d", len(blks)))
 	return a
+}
+
+// c14RealIndex: the index GenerateIndex builds for the payload, as index.WriteTo writes it.
+func c14RealIndex(payload []byte) []byte {
+	idx, err := carv2.GenerateIndex(bytes.NewReader(payload))
+	if err != nil {
+		panic(err)
+	}
+	var buf bytes.Buffer
+	if _, err := index.WriteTo(idx, &buf); err != nil {
+		panic(err)
+	}
+	return buf.Bytes()
 }
 
 func genC14Opts(r *RNG, a c14Archive) rOpts {
